@@ -33,6 +33,7 @@ type item struct {
 	data    *types.Data       // companion data for a forged non-empty block (P2P) ...
 	sdata   *types.SignedData // ... or as signed data on the DA layer
 	blob    []byte            // raw DA blob (junk)
+	blobs   [][]byte          // part 3: a batch of raw DA blobs at one DA height
 	light   bool              // include in the light-node admission check
 }
 
@@ -184,6 +185,8 @@ type result struct {
 	// foreign: something the node executed / stored / recorded as state is not the proposer's (same clauses as part 2);
 	// a halt on P2P-borne junk must not mask it
 	foreign string
+	// panics of the node's loops (the node runs them as bare goroutines: the process is dead)
+	panics []world.LoopPanic
 }
 
 // run delivers the genuine chain over the DA layer (one DA height per block) and injects `it` (nil = baseline)
@@ -195,7 +198,7 @@ func run(t *testing.T, pc *world.ProducerChain, it *item, T int, pos string, gen
 		env := world.NewEnv()
 		hs := &world.P2PStore[*types.SignedHeader]{}
 		ds := &world.P2PStore[*types.Data]{}
-		f, err := world.StartFullL2(world.Params{InitialHeight: pc.Initial, DAStartHeight: 1}, env, nil, hs, ds, nil)
+		f, err := world.StartFullL2Guarded(world.Params{InitialHeight: pc.Initial, DAStartHeight: 1}, env, nil, hs, ds, nil)
 		if err != nil {
 			res.fatal = []string{"startup: " + err.Error()}
 			return
@@ -235,6 +238,9 @@ func run(t *testing.T, pc *world.ProducerChain, it *item, T int, pos string, gen
 				daH++
 				if it.blob != nil {
 					env.DA.Place(daH, it.blob)
+				}
+				for _, b := range it.blobs {
+					env.DA.Place(daH, b)
 				}
 				if it.hdr != nil {
 					env.DA.Place(daH, hdrBlob(it.hdr))
@@ -291,6 +297,7 @@ func run(t *testing.T, pc *world.ProducerChain, it *item, T int, pos string, gen
 		f.TickIncluder()
 		res.digest = f.Digest(pc.Initial)
 		res.fatal = f.Fatal
+		res.panics = f.Panics()
 		if o := observe(f.N, env, pc, ""); o.unsafe != "" {
 			res.foreign = o.unsafe + ": " + o.unsafeM
 		}
@@ -313,6 +320,7 @@ func run(t *testing.T, pc *world.ProducerChain, it *item, T int, pos string, gen
 type part1 struct {
 	evals, lightEvals int64
 	p2pHalts, samples int
+	p2pPanics         int
 }
 
 // baselines of part 1 for one producer chain: genuine traffic over the DA layer / over P2P only, and per target the
@@ -323,7 +331,7 @@ type bases struct {
 }
 
 func synced(pc *world.ProducerChain, b result, dainc int) bool {
-	return len(b.fatal) == 0 && strings.Contains(b.digest, fmt.Sprintf("height=%d;", pc.Len())) && strings.Contains(b.digest, fmt.Sprintf("dainc=%d;", dainc))
+	return len(b.fatal) == 0 && len(b.panics) == 0 && strings.Contains(b.digest, fmt.Sprintf("height=%d;", pc.Len())) && strings.Contains(b.digest, fmt.Sprintf("dainc=%d;", dainc))
 }
 
 func mkBases(t *testing.T, r *vf.Run, pt string, pc *world.ProducerChain) (bs bases, ok bool) {
@@ -377,31 +385,55 @@ func evalFull(t *testing.T, r *vf.Run, p1 *part1, pt string, pc *world.ProducerC
 	hist := map[string]any{"part": "catalogue", "pattern": pt, "T": T, "kind": it.Kind, "channel": it.Channel, "pos": pos, "genuine_via": via}
 	desc := fmt.Sprintf("chain genesis+%q (genuine traffic over %s), %s for height %d over %s, position %s", pt, via, it.Kind, pc.Initial+uint64(T), it.Channel, pos)
 	r.Outcome(fmt.Sprintf("%s/%s/%s/%v", it.Kind, it.Channel, via, res.digest == base.digest))
-	if res.stored != "" {
-		r.Report(vf.Violation{Clause: "stored-chain-signed-by-proposer", Tags: tags, Msg: desc + ": " + res.stored, Cost: 1, History: hist})
-		return
-	}
-	if res.digest == base.digest {
-		if p1.evals%311 == 0 && p1.samples < 3 {
+	v, p2pHalt := judge(res, base, it.Channel == "da")
+	if v == nil {
+		if p2pHalt {
+			p1.p2pHalts++
+			if len(res.panics) > 0 {
+				p1.p2pPanics++
+			}
+		} else if p1.evals%311 == 0 && p1.samples < 3 {
 			p1.samples++
 			r.Sample(map[string]any{"case": desc, "result": "end state identical to the run without the adversary"})
 		}
 		return
 	}
-	if res.foreign != "" {
+	for _, p := range res.panics {
+		tags = append(tags, "loop-panic:"+p.Loop)
+	}
+	r.Report(vf.Violation{Clause: v.clause, Tags: tags, Msg: desc + ": " + v.msg, Cost: 1, History: hist})
+}
+
+type verdict struct{ clause, msg string }
+
+// judge applies the oracle of parts 1 and 3 to one full-node run. da = the adversarial material arrived over the DA
+// layer (then a halt or a loop panic is a violation; over P2P only it is an observation: p2pHalt).
+func judge(res, base result, da bool) (v *verdict, p2pHalt bool) {
+	differs := "\n with adversary: " + res.digest + "\n without:        " + base.digest
+	if res.stored != "" {
+		return &verdict{"stored-chain-signed-by-proposer", res.stored}, false
+	}
+	if res.digest != base.digest && res.foreign != "" {
 		// differs from the baseline AND contains something the proposer never signed (not merely halted / behind)
-		r.Report(vf.Violation{Clause: "adversarial-material-changes-outcome", Tags: tags, Msg: desc + ": " + res.foreign + "\n with adversary: " + res.digest + "\n without:        " + base.digest, Cost: 1, History: hist})
-		return
+		return &verdict{"adversarial-material-changes-outcome", res.foreign + differs}, false
+	}
+	if len(res.panics) > 0 {
+		// the end state may well equal the baseline (the loop can die after everything was synced): judged first
+		if !da {
+			return nil, true
+		}
+		return &verdict{"third-party-da-material-halts-node", "the node process died (and dies again on the same blob after every restart): " + res.panics[0].String()}, false
+	}
+	if res.digest == base.digest {
+		return nil, false
 	}
 	if len(res.fatal) > 0 {
-		if it.Channel != "da" {
-			p1.p2pHalts++
-			return
+		if !da {
+			return nil, true
 		}
-		r.Report(vf.Violation{Clause: "third-party-da-material-halts-node", Tags: tags, Msg: desc + ": the node stopped with a fatal error: " + res.fatal[0], Cost: 1, History: hist})
-		return
+		return &verdict{"third-party-da-material-halts-node", "the node stopped with a fatal error: " + res.fatal[0]}, false
 	}
-	r.Report(vf.Violation{Clause: "adversarial-material-changes-outcome", Tags: tags, Msg: desc + ":\n with adversary: " + res.digest + "\n without:        " + base.digest, Cost: 1, History: hist})
+	return &verdict{"adversarial-material-changes-outcome", differs}, false
 }
 
 func TestCheck(t *testing.T) {
@@ -422,17 +454,27 @@ func TestCheck(t *testing.T) {
 			}
 		}
 	}
+	positions := []string{"future", "next", "past", "successor-header-first"}
+	// part 3: structurally incomplete items naming the proposer (structured_test.go)
+	splan := sPlan{
+		Patterns:     patterns,
+		B:            vf.Pick(r, sBounds{KDel: 2, KKeep: 2, KBodyDel: 1, KBodyKeep: 1}, sBounds{KDel: 3, KKeep: 3, KBodyDel: 2, KBodyKeep: 2}),
+		Batch:        250,
+		P2PPositions: positions,
+	}
+	sst := newStructStats()
 	if sp := os.Getenv("C03_ORDER_SHARD"); sp != "" {
-		// worker process of part 2: explore one share of the plan and hand the raw result to the parent
+		// worker process of parts 2 and 3: explore one share of the plans and hand the raw result to the parent
 		var i, n int
 		if _, err := fmt.Sscanf(sp, "%d/%d", &i, &n); err != nil || n < 1 {
 			r.EngineError("bad C03_ORDER_SHARD " + sp)
 		}
 		st := &orderStats{ForgedSpecs: map[string]int{}}
 		if n >= 1 {
+			runStructuredPlan(t, r, sst, splan, positions, i, n)
 			runOrderPlan(t, r, st, orderPlan, i, n)
 		}
-		r.Finish(vf.Coverage{Extra: map[string]any{"order_stats": st}})
+		r.Finish(vf.Coverage{Extra: map[string]any{"order_stats": st, "struct_stats": sst}})
 		return
 	}
 	r.Assume = []string{
@@ -440,9 +482,10 @@ func TestCheck(t *testing.T) {
 		"part 1: genuine traffic arrives over the DA layer (one DA height per block) or, in a second variant, over P2P only with nothing of the proposer on the DA layer; the adversarial item arrives over the DA layer, the P2P header store or the P2P data store, before block T-1, just before block T, after block T, or (DA-borne genuine traffic) after the genuine header of block T was retrieved from the DA layer ahead of block T-1",
 		"part 2 injects at the sync loop's two input channels: the only third-party material that reaches them without an admission test is unsigned P2P data (DataStoreRetrieveLoop forwards every stored item; part 1 runs that loop unmodified); headers and DA data pass isUsingExpectedSingleSequencer / isValidSignedData first (part 1); every total order of the genuine events is possible at this level because four independent producers feed two buffered channels and select picks either; each event is fully processed before the next; the proposer's blobs are marked as seen on the DA layer",
 		"a halt (or falling behind) caused by junk arriving over P2P only is recorded as an observation, not as a violation (the property's no-halt clause names third-party material on the DA layer); executing, storing or finalizing anything the proposer did not sign is a violation on every channel",
+		"the node runs its ingress loops (RetrieveLoop, the two P2P store loops, SyncLoop, DAIncluderLoop) as bare goroutines, so a panic below any of them ends the process and recurs on the same DA blob after every restart; the harness recovers such a panic only to report it: caused by DA-borne material it is the violation third-party-da-material-halts-node (tag loop-panic:<loop> plus the shape of the item), caused by P2P-only material it is an observation like any other halt",
+		"part 3 derives its items from the protobuf form of the proposer's PUBLISHED blobs (populated fields only), the proposer's public address and key and the attacker's own key; forms that decode to exactly the genuine item are left out (they ARE the genuine item), and so are unsigned P2P data forms that keep the complete genuine transaction list (the signed header's data hash covers the transaction list only, so they ARE the proposer's transaction data; only the moment at which the block can be applied changes); forms whose removed nodes lie outside the signed bytes (signer parts, default-valued nodes) still carry a fitting signature of the proposer's key: they are delivered in batches of their own and only 'does not halt the node' is demanded for them (accepting material that is signed with the proposer's key is no violation); a P2P store double serves an item only under the item's own height, as go-header's store does, so only forms that decode to the target height are delivered over P2P",
 		"light-node admission is decided by the two calls go-header makes on a received header: hdr.Validate() and trusted.Verify(hdr)",
 	}
-	positions := []string{"future", "next", "past", "successor-header-first"}
 	p1 := &part1{}
 	if r.ReplayPath() != "" {
 		var h struct {
@@ -455,11 +498,22 @@ func TestCheck(t *testing.T) {
 			Pos     string   `json:"pos"`
 			Via     string   `json:"genuine_via"`
 			Light   bool     `json:"light"`
+			Items   []sItem  `json:"items"`
 		}
 		if _, err := r.LoadReplay(&h); err != nil {
 			r.EngineError(err.Error())
 		} else if h.Part == "order" {
 			replayOrder(t, r, h.Pattern, h.Seq)
+		} else if h.Part == "structured" {
+			if pc, err := world.BuildChain(h.Pattern, 1); err != nil {
+				r.EngineError(err.Error())
+			} else if len(h.Items) == 0 {
+				r.EngineError("replay: no items in the recorded history")
+			} else if h.Light {
+				lightStructured(r, sst, pc, h.T, &sGen{Items: h.Items}, identOf(pc))
+			} else if bs, ok := mkBases(t, r, h.Pattern, pc); ok {
+				evalStructuredOpts(t, r, sst, pc, bs, identOf(pc), h.Items, h.Channel, h.T, h.Pos, h.Via, true)
+			}
 		} else if pc, err := world.BuildChain(h.Pattern, 1); err != nil {
 			r.EngineError(err.Error())
 		} else {
@@ -493,7 +547,7 @@ func TestCheck(t *testing.T) {
 	var waitOrder func()
 	workers := runtime.NumCPU()
 	if os.Getenv("VERIF_NOSHARD") == "" && workers > 1 {
-		waitOrder = spawnOrderWorkers(r, st, workers)
+		waitOrder = spawnOrderWorkers(r, st, sst, workers)
 	}
 	for _, pt := range patterns {
 		pc, err := world.BuildChain(pt, 1)
@@ -506,6 +560,13 @@ func TestCheck(t *testing.T) {
 			continue
 		}
 		for T := 0; T < pc.Len(); T++ {
+			// part 3, light-node admission of every structurally incomplete header form (the full-node runs of part 3
+			// are dealt out over the worker processes)
+			if g, err := structuredItems(pc, T, splan.B); err != nil {
+				r.EngineError("structured items: " + err.Error())
+			} else {
+				lightStructured(r, sst, pc, T, g, identOf(pc))
+			}
 			for _, it := range catalogue(pc, T) {
 				it := it
 				if it.light && it.hdr != nil && T > 0 {
@@ -525,6 +586,7 @@ func TestCheck(t *testing.T) {
 	if waitOrder != nil {
 		waitOrder()
 	} else {
+		runStructuredPlan(t, r, sst, splan, positions, 0, 1)
 		runOrderPlan(t, r, st, orderPlan, 0, 1)
 	}
 	var planText []string
@@ -534,17 +596,29 @@ func TestCheck(t *testing.T) {
 	if st.SuccessorFirstRuns == 0 || st.EmptyTargetRuns == 0 || st.NonEmptyTargetRuns == 0 {
 		r.EngineError("order part is vacuous: no run with a forged data event after the genuine header of its height while a predecessor is missing / for an empty / for a non-empty genuine block")
 	}
+	if sst.KeylessProposerAddressData == 0 || sst.DAScans == 0 || sst.P2PHeaderRuns == 0 || sst.BySigner["signer=absent"] == 0 || sst.BySigner["signer(address=proposer's,pub_key=attacker's)"] == 0 {
+		r.EngineError(fmt.Sprintf("part 3 is vacuous: signed-data forms with txs+metadata naming the proposer's address without a key: %d, DA scans: %d, P2P header runs: %d, signer shapes: %v", sst.KeylessProposerAddressData, sst.DAScans, sst.P2PHeaderRuns, sst.BySigner))
+	}
 	_ = time.Now
+	p3runs := sst.DAScans + sst.P2PHeaderRuns + sst.P2PDataRuns
 	r.Finish(vf.Coverage{
-		Evaluations: p1.evals + p1.lightEvals + st.Runs + st.Baselines, DistinctNontrivial: int64(r.DistinctOutcomes()), States: p1.evals + st.Runs, Transitions: p1.evals + st.Runs,
+		Evaluations: p1.evals + p1.lightEvals + st.Runs + st.Baselines + p3runs + sst.Baselines + sst.LightPairs, DistinctNontrivial: int64(r.DistinctOutcomes()), States: p1.evals + st.Runs + p3runs, Transitions: p1.evals + st.Runs + p3runs,
 		Rule: "part 1: every (producer chain pattern, target height, catalogue item, channel, insertion position) combination runs the full node with all ingress loops; plus every (catalogue header, trusted head) pair for light-node admission; distinct = distinct (item kind, channel, identical-to-baseline?) classes. " +
-			"part 2: for every listed (pattern, k): every permutation of the genuine header/data events of the chain x every way to insert k unsigned third-party P2P data events (target = every block of the chain, empty or not, and one height beyond it; variants = third party's own transactions with metadata copied from the genuine header or its own, altered copies of the genuine transaction list, in the thorough tier also a wrong chain id and another block's genuine transactions) at every position, delivered to the real SyncLoop + DAIncluderLoop; distinct = (order feature, target feature, verdict class)",
+			"part 2: for every listed (pattern, k): every permutation of the genuine header/data events of the chain x every way to insert k unsigned third-party P2P data events (target = every block of the chain, empty or not, and one height beyond it; variants = third party's own transactions with metadata copied from the genuine header or its own, altered copies of the genuine transaction list, in the thorough tier also a wrong chain id and another block's genuine transactions) at every position, delivered to the real SyncLoop + DAIncluderLoop; distinct = (order feature, target feature, verdict class). " +
+			"part 3: structurally incomplete protobuf naming the proposer, built without its private key: for every (pattern, target block T) the genuine signed-header blob and signed-data blob of T with every set of <= k_delete populated nodes of the protobuf tree removed (a sub-message removed or left present-but-empty) and every minimal message of <= k_keep leaves, signature/signer as published (stale; includes the address-only, key-only, empty-signer and signer-less shapes under the proposer's identity); plus every body form (complete, absent, empty, <= k_body_delete nodes removed, minimal of <= k_body_keep leaves) x header proposer address {as published, attacker's} x every signer shape (absent, or address in {absent, proposer's, attacker's} x pub_key in {absent, proposer's, attacker's}) signed by the attacker's key over the bytes the node verifies; every blob is delivered over the DA layer at every position x both genuine-traffic variants (batches of one DA height, a deviating batch is split down to every single blob), every header form that decodes to the target height also through the P2P header store and every incomplete unsigned Data form through the P2P data store (one per run); every decodable header form is put to the light-node admission calls; a panic of any node loop on DA-borne material is a violation",
 		Exhaustive: true,
 		Bounds: map[string]any{"patterns": patterns, "positions": positions, "full_node_runs": p1.evals, "light_node_pairs": p1.lightEvals,
+			"structured_k_delete": splan.B.KDel, "structured_k_keep": splan.B.KKeep, "structured_k_body_delete": splan.B.KBodyDel, "structured_k_body_keep": splan.B.KBodyKeep,
+			"structured_source_nodes": sst.Nodes, "structured_items(pattern/target)": sst.Blobs, "structured_items_by_form_and_mode": sst.ByMode, "structured_items_by_signer_shape": sst.BySigner, "structured_forms_left_out_because_they_decode_to_exactly_the_genuine_item": sst.Reencodings, "structured_p2p_data_forms_left_out_because_they_keep_the_complete_genuine_tx_list": sst.GenuineTxLists,
+			"structured_signed_data_forms_with_txs_and_metadata_naming_proposer_address_without_key": sst.KeylessProposerAddressData,
+			"structured_da_batch_size": splan.Batch, "structured_da_scans(full-node runs)": sst.DAScans, "structured_da_blob_deliveries(blob x position x variant)": sst.DABlobDeliveries, "structured_da_batches_split": sst.Splits,
+			"structured_p2p_positions": splan.P2PPositions, "structured_p2p_header_runs": sst.P2PHeaderRuns, "structured_p2p_data_runs": sst.P2PDataRuns, "structured_baseline_runs": sst.Baselines,
+			"structured_header_forms_decodable(light-node pairs)": sst.LightPairs,
 			"order_part_plan(pattern/forged events)": planText, "order_part_forged_specs(target x variant)": st.ForgedSpecs, "order_part_genuine_orders": st.Perms, "order_part_runs_with_forged_data": st.Runs, "order_part_baseline_runs": st.Baselines, "order_part_worker_processes": workers,
 			"order_part_runs_forged_data_after_genuine_header_while_predecessor_missing": st.SuccessorFirstRuns, "order_part_runs_target_empty_block": st.EmptyTargetRuns, "order_part_runs_target_non_empty_block": st.NonEmptyTargetRuns},
-		Extra: map[string]any{"observation_p2p_only_junk_halts_node": p1.p2pHalts,
-			"order_part_identical_to_baseline": st.Identical, "order_part_observation_halted_on_p2p_junk_but_safe": st.HaltedOnP2PJunk, "order_part_observation_behind_without_halt_but_safe": st.Behind},
+		Extra: map[string]any{"observation_p2p_only_junk_halts_node": p1.p2pHalts, "observation_p2p_only_junk_panics_a_loop": p1.p2pPanics,
+			"structured_observation_p2p_only_junk_halts_node": sst.P2PHalts, "structured_observation_p2p_only_junk_panics_a_loop": sst.P2PPanics, "structured_observation_light_admission_calls_panic": sst.LightPanics, "structured_observation_runs_where_reencodings_with_fitting_proposer_signature_changed_the_outcome": sst.ProposerSignedTreatedDifferently,
+			"order_part_identical_to_baseline": st.Identical, "order_part_observation_halted_on_p2p_junk_but_safe": st.HaltedOnP2PJunk, "order_part_observation_of_these_a_loop_panicked": st.PanickedOnP2PJunk, "order_part_observation_behind_without_halt_but_safe": st.Behind},
 	})
 }
 
